@@ -100,6 +100,11 @@ pub fn dispatch(ty: &str, input: Vec<u8>, light: bool) -> J {
         "multiasset" => codec_type!(csl::MultiAsset, input, light),
         "protocol_param_update" => codec_type!(csl::ProtocolParamUpdate, input, light),
         "block" => codec_type!(csl::Block, input, light),
+        "gov_action" => codec_type!(csl::GovernanceAction, input, light),
+        "header_body" => codec_type!(csl::HeaderBody, input, light),
+        "header" => codec_type!(csl::Header, input, light),
+        "operational_cert" => codec_type!(csl::OperationalCert, input, light),
+        "pool_params" => codec_type!(csl::PoolParams, input, light),
         "vkeywitnesses" => codec_type!(csl::Vkeywitnesses, input, light),
         "bootstrap_witnesses" => codec_type!(csl::BootstrapWitnesses, input, light),
         _ => json!({"err": "harness: unknown type"}),
